@@ -65,6 +65,24 @@ fn check_value<T: Fam>(x: &T, obs: &mut Obs) -> Result<(), Fail> {
             if why != "non-finite float" {
                 let back: T = sonic_rs::from_str(&text).map_err(|e| Fail::new(format!("C19/{name}/text-readback"), format!("{name}: from_str(to_string(x)) failed for {:?}: {e}", trunc(&text, 200))))?;
                 ensure!(&back == x, format!("C19/{name}/text-readback"), "{name}: from_str(to_string(x)) != x: text {:?}", trunc(&text, 200));
+                // reading side of the commutation: map keys are strings in the text, so a 128-bit key loses
+                // nothing on its way through the parsed DOM; if no *value* is out of range, from_value of the
+                // parsed text must give x like from_str does
+                fn oor_value(sv: &SV) -> bool {
+                    match sv {
+                        SV::I(i) => *i < i64::MIN as i128 || *i > u64::MAX as i128,
+                        SV::U(u) => *u > u64::MAX as u128,
+                        SV::Arr(v) => v.iter().any(oor_value),
+                        SV::Obj(v) => v.iter().any(|(_, x)| oor_value(x)),
+                        _ => false,
+                    }
+                }
+                if !oor_value(&model) {
+                    if let Ok(pv) = sonic_rs::from_str::<Value>(&text) {
+                        let viadom: T = sonic_rs::from_value(&pv).map_err(|e| Fail::new(format!("C19/{name}/from_value-fails"), format!("{name}: from_value(parse(to_string(x))) failed although from_str(to_string(x)) succeeds: {e}; text {:?}", trunc(&text, 200))))?;
+                        ensure!(&viadom == x, format!("C19/{name}/from_value-differs"), "{name}: from_value(parse(to_string(x))) differs from x; text {:?}", trunc(&text, 200));
+                    }
+                }
             }
             return Ok(());
         }
@@ -177,6 +195,12 @@ pub fn oracle_special(case: &[u8], obs: &mut Obs) -> Result<(), Fail> {
                 )*};
             }
             prim!(i8, i16, i32, isize, u8, u16, u32, usize);
+            // a DOM number against an f32 primitive: equal iff the number equals the f32 widened exactly
+            for (text, q) in [("0.1", 0.1f32), ("0.5", 0.5f32), ("16777217", 16777216f32), ("16777216", 16777216f32), ("1e300", f32::INFINITY), ("3.4028234663852886e38", f32::MAX), ("3.4028235e38", f32::MAX), ("0.10000000149011612", 0.1f32), ("-0.1", -0.1f32), ("1", 1.0f32)] {
+                let v: Value = sonic_rs::from_str(text).map_err(|e| Fail::new("C19/laws/primitive", format!("{e}")))?;
+                let want = text.parse::<f64>().unwrap() == q as f64;
+                ensure!((v == q) == want && (q == v) == want && (&v == q) == want, "C19/laws/primitive-f32", "json {text} == {q:?}f32 is {}, comparing the primitives ({text} as f64 vs the f32 widened) gives {want}", v == q);
+            }
             for (p, q) in [(1.5f32, 1.5f32), (0.5, 0.25), (-2.0, -2.0), (16777216.0, 16777216.0)] {
                 let v = Value::try_from(p).unwrap();
                 ensure!(v == p && (v == q) == (p == q), "C19/laws/primitive", "Value::try_from({p}f32) comparison with {q} disagrees");
